@@ -14,6 +14,8 @@ C03_PATTERNS_QUICK = [
 ]
 
 PROPS = {}
+NOT_APPLICABLE = {}
+HOOK_COMMITS = []
 
 PROPS["C03"] = {
     "bounds": "names 0..6 ASCII bytes, literal options 0..1 symbolic bytes, regex/notRegex from an enumerated family of concrete patterns",
@@ -27,3 +29,25 @@ PROPS["C03"] = {
          },
     ],
 }
+
+PROPS["C03"]["groups"] += [
+    {"pkg": "route", "hdir": "route", "specs": [spec("C03/dest/name-only", "VerifC03DestName")]},
+    {"pkg": "table", "hdir": "table", "specs": [spec("C03/aggroute/name-only", "VerifC03AggRouteName"), spec("C03/table/name-only", "VerifC03TableName")]},
+]
+
+PROPS["C01"] = {
+    "bounds": "0..3 blacklist entries x 0..3 capture routes, 0..3 real destinations per send-all/send-first route, names 1..3 printable bytes, every entry with a free one-byte prefix filter (all accept/reject combinations)",
+    "outside": "non-carbon route types (enter only as capture routes); real sockets; filter semantics (C03)",
+    "assumptions": ["destinations are observed through their In channel (not running)", "validation level none so every 3-field line is valid"],
+    "groups": [
+        {"pkg": "table", "hdir": "table", "specs": [spec("C01/table", "VerifC01Table")]},
+        {"pkg": "route", "hdir": "route", "specs": [spec("C01/route", "VerifC01Route")]},
+    ],
+}
+
+C03_AGG = [("^a(b|c)", "c$"), ("^ab?c", ""), ("", "^a"), ("b", "^ab"), ("^a.c$", "^ab")]
+PROPS["C03"]["groups"] += [
+    {"pkg": "aggregator", "hdir": "aggregator",
+     "specs": [spec("C03/agg/regex=%s/notRegex=%s" % (r, n), "VerifC03Agg", {"regex": r, "notRegex": n}) for r, n in C03_AGG if r] +
+              [spec("C03/cache/regex=%s" % r, "VerifC03Cache", {"regex": r}) for r in ["^a(b|c)", "b"]]},
+]
